@@ -65,7 +65,13 @@ class World:
             f = self.ps.ft_phase_screen if a == "ft" else self.ps.ft_sh_phase_screen
             return np.asarray(f(P["r0"], P["N"], P["delta"], P["L0"], P["l0"], seed=self.seed_arg(rec["seed"])))
         if a == "new" and rec.get("again"):
-            self.objs[rec["o"]].make_initial_screen()              # rewind a used object
+            ob = self.objs[rec["o"]]
+            self.reinits = getattr(self, "reinits", 0) + 1
+            if self.reinits % 2 == 0:                              # every second time: the whole public set-up sequence again
+                ob.make_covmats()
+                ob.makeAMatrix()
+                ob.makeBMatrix()
+            ob.make_initial_screen()                               # rewind a used object
             return np.array(self.objs[rec["o"]].scrn, copy=True)
         if a == "new":
             o = rec["o"]
@@ -220,6 +226,34 @@ def run_behaviour(ao, hist, ref=None, seedmap=0):
     return []
 
 
+def _unseeded_in_child(q):
+    from aotools.turbulence import phasescreen
+    q.put((_h(phasescreen.ft_phase_screen(0.2, 8, 0.1, 20.0, 0.01)), _h(phasescreen.ft_sh_phase_screen(0.2, 8, 0.1, 20.0, 0.01))))
+
+
+def forked_unseeded(ao):
+    """unseeded calls differ from each other - also across worker processes forked AFTER this process has already made unseeded
+    screens (workers of a simulation inherit whatever module state exists at fork time)"""
+    import multiprocessing as mp
+    from aotools.turbulence import phasescreen
+    seen = [(_h(phasescreen.ft_phase_screen(0.2, 8, 0.1, 20.0, 0.01)), _h(phasescreen.ft_sh_phase_screen(0.2, 8, 0.1, 20.0, 0.01)))]
+    ctx = mp.get_context("fork")
+    q = ctx.Queue()
+    ps_ = [ctx.Process(target=_unseeded_in_child, args=(q,)) for _ in range(3)]
+    for p_ in ps_:
+        p_.start()
+    for p_ in ps_:
+        seen.append(q.get(timeout=120))
+    for p_ in ps_:
+        p_.join(30)
+    seen.append((_h(phasescreen.ft_phase_screen(0.2, 8, 0.1, 20.0, 0.01)), _h(phasescreen.ft_sh_phase_screen(0.2, 8, 0.1, 20.0, 0.01))))
+    for k, name in ((0, "ft"), (1, "ftsh")):
+        vals = [s_[k] for s_ in seen]
+        if len(set(vals)) != len(vals):
+            return [("rng:unseeded-screens-repeat-across-forked-workers:" + name, dict(distinct=len(set(vals)), calls=len(vals)))]
+    return []
+
+
 def run(run):
     ao = core.import_aotools()
     quick = run.tier == "quick"
@@ -263,6 +297,9 @@ def run(run):
                 run.violation(key + ("" if not sm else ":seed-sequence-object-reused" if SEEDMAPS[sm] == "seed-sequence-objects" else ":seeds-beyond-32-bits"), detail, dict(kind="behaviour", hist=hist, seedmap=sm))
     finally:
         np.random.set_state(saved)
+    for key, detail in forked_unseeded(ao):
+        run.violation(key, detail, dict(kind="fork"))
+    run.traces += 1
     run.sample(behaviours[0])
     run.sample(behaviours[-1])
     run.aux.update(action_counts=acts, skipped_steps={k: NOTES.count(k) for k in set(NOTES)})
@@ -279,6 +316,10 @@ def run(run):
 def replay(run, case):
     ao = core.import_aotools()
     warnings.simplefilter("ignore")
+    if case.get("kind") == "fork":
+        for key, detail in forked_unseeded(ao):
+            run.violation(key, detail, case)
+        return
     saved = np.random.get_state()
     try:
         with np.errstate(all="ignore"):
